@@ -418,36 +418,43 @@ func doPack(payloadFile, traceFile string, nrandom int, seed int64) {
 		checkInput(pk, p.b, true, "roundtrip:"+p.id, counts)
 		// message level: single segment message holding the payload
 		if len(p.b) > 0 {
-			msg := &capnp.Message{Arena: capnp.SingleSegment(append([]byte(nil), p.b...))}
-			{
-				mp, err := msg.MarshalPacked()
-				if err != nil {
-					report(mismatch{Kind: "msg:marshalpacked-error", Where: p.id, Got: errs(err)})
-				} else {
-					m2, err := capnp.UnmarshalPacked(mp)
-					if err != nil {
-						report(mismatch{Kind: "msg:unmarshalpacked-error", Where: p.id, Got: errs(err)})
-					} else if s, err := m2.Segment(0); err != nil || !bytes.Equal(s.Data(), p.b) {
-						report(mismatch{Kind: "msg:unmarshalpacked-wrong", Where: p.id})
-					}
-					for _, chunk := range []int{1, 7, 9, 4096} {
-						d := capnp.NewPackedDecoder(&chunkReader{mp, chunk})
-						m3, err := d.Decode()
-						if err != nil {
-							report(mismatch{Kind: "msg:packeddecoder-error", Where: p.id, Got: errs(err)})
-						} else if s, err := m3.Segment(0); err != nil || !bytes.Equal(s.Data(), p.b) {
-							report(mismatch{Kind: "msg:packeddecoder-wrong", Where: p.id})
-						}
-						counts["msg"]++
-					}
-				}
-			}
+			msgLevel(p.id, p.b, counts)
 		}
 	}
 	tw.Flush()
 	tf.Close()
 	enc.Encode(map[string]interface{}{"summary": true, "payloads": len(payloads), "unpack_runs": counts["unpack"],
 		"stream_runs": counts["stream"], "msg_runs": counts["msg"]})
+}
+
+func msgLevel(id string, b []byte, counts map[string]int) {
+	defer func() {
+		if r := recover(); r != nil {
+			report(mismatch{Kind: "msg:panic", Where: id, Got: fmt.Sprint(r)})
+		}
+	}()
+	msg := &capnp.Message{Arena: capnp.SingleSegment(append([]byte(nil), b...))}
+	mp, err := msg.MarshalPacked()
+	if err != nil {
+		report(mismatch{Kind: "msg:marshalpacked-error", Where: id, Got: errs(err)})
+		return
+	}
+	m2, err := capnp.UnmarshalPacked(mp)
+	if err != nil {
+		report(mismatch{Kind: "msg:unmarshalpacked-error", Where: id, Got: errs(err)})
+	} else if s, err := m2.Segment(0); err != nil || !bytes.Equal(s.Data(), b) {
+		report(mismatch{Kind: "msg:unmarshalpacked-wrong", Where: id})
+	}
+	for _, chunk := range []int{1, 7, 9, 4096} {
+		d := capnp.NewPackedDecoder(&chunkReader{mp, chunk})
+		m3, err := d.Decode()
+		if err != nil {
+			report(mismatch{Kind: "msg:packeddecoder-error", Where: id, Got: errs(err)})
+		} else if s, err := m3.Segment(0); err != nil || !bytes.Equal(s.Data(), b) {
+			report(mismatch{Kind: "msg:packeddecoder-wrong", Where: id})
+		}
+		counts["msg"]++
+	}
 }
 
 func main() {
